@@ -13,6 +13,37 @@ use std::sync::atomic::{AtomicU64, Ordering};
 const ALLOC_BOUND: usize = 16 * 1024 * 1024 + 64 * 1024;
 const TYPES: [MessageType; 7] = [MessageType::SignatureRequest, MessageType::SignatureResponse, MessageType::DeltaData, MessageType::Ack, MessageType::Error, MessageType::Ping, MessageType::Pong];
 
+/// Writer accepting at most `cap` bytes per write call (default write_vectored = first non-empty buffer).
+struct CapW {
+    out: Vec<u8>,
+    cap: usize,
+}
+impl std::io::Write for CapW {
+    fn write(&mut self, b: &[u8]) -> std::io::Result<usize> {
+        let n = b.len().min(self.cap);
+        self.out.extend_from_slice(&b[..n]);
+        Ok(n)
+    }
+    fn write_vectored(&mut self, bufs: &[std::io::IoSlice<'_>]) -> std::io::Result<usize> {
+        // a vectored writer that honours the cap across buffers
+        let mut left = self.cap;
+        let mut n = 0;
+        for b in bufs {
+            let k = b.len().min(left);
+            self.out.extend_from_slice(&b[..k]);
+            n += k;
+            left -= k;
+            if left == 0 {
+                break;
+            }
+        }
+        Ok(n)
+    }
+    fn flush(&mut self) -> std::io::Result<()> {
+        Ok(())
+    }
+}
+
 fn v(kind: &str, msg: String, detail: Value) -> Violation {
     Violation::new(kind, msg, detail)
 }
@@ -178,6 +209,17 @@ fn message_part(seed: u64, evals: &AtomicU64, nontrivial: &AtomicU64) -> (Vec<Vi
         }
         if w.len() < 12 || &w[0..4] != b"COPA" || w[9] != PROTOCOL_VERSION || w[8] != m.msg_type() as u8 || u32::from_le_bytes([w[4], w[5], w[6], w[7]]) as usize != w.len() - 12 || w[12..] != enc[..] {
             out.push(v("frame_format", format!("write_message frame malformed for menu item {i}: header {}", hex(&w[..12.min(w.len())])), det.clone()));
+        }
+        // a writer that accepts only a few bytes per call must receive exactly the same bytes
+        for cap in [1usize, 5, 11, 12, 13, 64] {
+            if enc.len() > 5000 && cap < 64 {
+                continue;
+            }
+            let mut sw = CapW { out: Vec::new(), cap };
+            if Codec::new().write_message(&mut sw, m).is_err() || sw.out != w {
+                out.push(v("frame_format", format!("write_message through a writer accepting <= {cap} bytes per call produced different bytes for menu item {i} (first 16: {})", hex(&sw.out[..sw.out.len().min(16)])), det.clone()));
+                break;
+            }
         }
         let mut c2 = Codec::new();
         match c2.read_message(&mut &w[..]) {
@@ -479,8 +521,23 @@ fn field_corruptions(seed: u64) -> Vec<(String, Vec<u8>)> {
         x[o..o + 8].copy_from_slice(&val.to_le_bytes());
         x
     };
-    for bs in [0u64, 1, 3, 256, 1000, 131_072, 1 << 63, u64::MAX] {
+    for bs in [0u64, 1, 3, 256, 1000, 131_072, 1 << 63, u64::MAX, (1 << 32) + 512, (1 << 40) + 2048, (255 << 56) + 65536] {
         out.push((format!("sig.block_size={bs}"), put64(&se, 0, bs)));
+    }
+    // every byte of both headers, three corruptions each
+    for pos in 0..24usize {
+        for x in [0x01u8, 0x80, 0xFF] {
+            let mut a = se.clone();
+            a[pos] ^= x;
+            out.push((format!("sig.byte[{pos}]^={x:#x}"), a));
+        }
+    }
+    for pos in 0..28usize {
+        for x in [0x01u8, 0x80, 0xFF] {
+            let mut a = de.clone();
+            a[pos] ^= x;
+            out.push((format!("delta.byte[{pos}]^={x:#x}"), a));
+        }
     }
     let n = sig.blocks.len() as u64;
     for c in [0u64, n - 1, n + 1, 1 << 32, 1 << 63, u64::MAX] {
